@@ -19,6 +19,10 @@ type loopMod struct {
 	key   string
 	t     types.Type
 	whole bool
+	// calleeFields: when the only reason for `whole` is a callee that writes some top-level
+	// fields of objects of this struct type, the union of those fields (nil = unknown)
+	calleeFields map[int]bool
+	calleeOnly   bool
 	roots map[ssa.Value]map[int]bool // root -> written top-level fields (nil = whole object)
 	// derefRoots: slices loaded inside the loop from a cell allocated before the loop
 	// (a variable captured by a closure); valid only if the loop never writes that cell.
@@ -343,7 +347,23 @@ func (x *Exec) loopTargets(fr *Frame, li *loopInfo) (map[string]*loopMod, bool) 
 		}
 	}
 	for k, m := range calleeAcc {
-		get(k, m.t).whole = true
+		lm := get(k, m.t)
+		if !lm.whole && m.fields != nil {
+			// so far only field-granular callee writes: remember which fields
+			if lm.calleeFields == nil && !lm.calleeOnly {
+				lm.calleeFields = map[int]bool{}
+				lm.calleeOnly = true
+			}
+			if lm.calleeOnly {
+				for f := range m.fields {
+					lm.calleeFields[f] = true
+				}
+			}
+		} else {
+			lm.calleeOnly = false
+			lm.calleeFields = nil
+		}
+		lm.whole = true
 	}
 	// cells read as roots must not be written by the loop
 	for _, m := range mods {
@@ -448,6 +468,12 @@ func (x *Exec) loopHavoc(fr *Frame, li *loopInfo, entry, head *State) {
 	for _, k := range sortedKeys(mods) {
 		m := mods[k]
 		if strings.HasPrefix(k, "G:") || m.whole {
+			if m.calleeOnly && m.calleeFields != nil && len(m.roots) == 0 && len(m.derefRoots) == 0 && len(m.loadRoots) == 0 {
+				// the loop itself never stores into objects of this type; callees write only
+				// these top-level fields
+				x.havocModTarget(head, modTarget{key: k, t: m.t, fields: m.calleeFields})
+				continue
+			}
 			x.havocKeyCall(head, k, m.t)
 			continue
 		}
